@@ -252,7 +252,9 @@ class Real(Interp):
             if p == '-0':
                 return z3.RealVal(0)
             if isinstance(p, str):
-                raise ModeError('REAL: constant %s' % p)
+                # NaN / infinity have no real reading: an unconstrained fresh value (over-approximation; a comparison
+                # against such a constant is decided below by its IEEE meaning for finite operands)
+                return self.fresh('nonreal_' + p.strip('-'))
             return z3.RealVal(str(p))
         if op == 'arg':
             return self.argmap.get(a[0], z3.Real(a[0]))
@@ -266,6 +268,20 @@ class Real(Interp):
         if op == 'fcmp':
             p = a[0]
             l, r = a[1], a[2]
+            for side, other in ((1, 2), (2, 1)):
+                t_ = x.args[side]
+                if t_.op == 'fc' and isinstance(t_.args[0], str) and t_.args[0] != '-0':
+                    k = t_.args[0]
+                    if 'nan' in k:
+                        return z3.BoolVal(p.startswith('u') and p != 'ord' or p == 'uno')
+                    # finite operand against +-infinity
+                    big = not k.startswith('-')
+                    q = p[1:] if p not in ('ord', 'uno') else p
+                    if side == 2:      # finite ? inf
+                        res = {'eq': False, 'ne': True, 'lt': big, 'le': big, 'gt': not big, 'ge': not big, 'ord': True, 'uno': False}[q]
+                    else:              # inf ? finite
+                        res = {'eq': False, 'ne': True, 'lt': not big, 'le': not big, 'gt': big, 'ge': big, 'ord': True, 'uno': False}[q]
+                    return z3.BoolVal(res)
             if p in ('oeq', 'ueq'): return l == r
             if p in ('one', 'une'): return l != r
             if p in ('olt', 'ult'): return l < r
